@@ -28,7 +28,10 @@ Faults == {"none", "input-missing", "input-is-directory", "command-missing",
            \* the golden run itself exceeds an explicit time limit: it has
            \* no output, so a configured match string is absent from it
            "golden-timeout", "golden-timeout-match-out",
-           "golden-timeout-match-err"}
+           "golden-timeout-match-err",
+           \* some candidates make the command print bytes that are not text:
+           \* the failing checks cost only their candidates
+           "undecodable-output"}
 
 FaultPhase(f) ==
   CASE f \in {"input-missing", "input-is-directory", "command-missing",
@@ -39,7 +42,7 @@ FaultPhase(f) ==
     [] OTHER -> "report"
 
 Outcome(f) ==
-  CASE f \in {"none", "golden-timeout"} -> "completed"
+  CASE f \in {"none", "golden-timeout", "undecodable-output"} -> "completed"
     [] f \in {"match-out-absent", "match-err-absent",
               "golden-timeout-match-out", "golden-timeout-match-err"} -> "nomatch"
     [] f = "interrupt" -> "interrupted"
@@ -64,6 +67,7 @@ Init == /\ phase = "argv" /\ fault \in Faults /\ outcome = "running"
         /\ entry \in {"bin", "module"}
         /\ strategy \in {"ddmin", "hierarchical", "hybrid"}
         /\ flag \in (IF fault = "none" /\ strategy = "hybrid" THEN Flags
+                     ELSE IF fault = "undecodable-output" THEN {"none", "-v"}
                      ELSE {"none"})
 
 Advance == /\ ~done /\ phase # "report" /\ phase # FaultPhase(fault)
